@@ -132,6 +132,14 @@ func (l *loader) loadNetwork(pNet *acmelibv1.Network) (*Network, error) {
 		if err != nil {
 			return nil, err
 		}
+		// two buses cannot share the entity id
+		if net.buses.hasKey(bus.entityID) {
+			return nil, &EntityIDError{
+				EntityID: bus.entityID,
+				Err:      ErrIsDuplicated,
+			}
+		}
+
 		if err := net.AddBus(bus); err != nil {
 			return nil, err
 		}
